@@ -265,6 +265,31 @@ def f7(order, nlocals, retw):
     return prog(main, {"walk": walk, "note": note})
 
 
+# ---------------------------------------------------------------- F8
+def f8(k, keep, mixed):
+    """a ring of k mutually recursive subroutines s0 -> s1 -> ... -> s(k-1) -> s0; every routine keeps its
+    parameter (keep='param') or a local variable (keep='local') alive across the call; with mixed=True the
+    routines alternate between one and two parameters"""
+    subs = {}
+    for i in range(k):
+        nxt = "s%d" % ((i + 1) % k)
+        two = mixed and i % 2 == 1
+        nxt_two = mixed and ((i + 1) % k) % 2 == 1
+        params = [["n", "val"]] + ([["x", "val"]] if two else [])
+        call = ["Call", nxt, ["Minus", L("n"), I(1)]] + ([I(3 + i)] if nxt_two else [])
+        kept = L("n") if keep == "param" else L("v")
+        extra = ["Add", kept, L("x")] if two else kept
+        body = ["Seq"]
+        if keep == "local":
+            body.append(["Store", "v", ["Add", ["Mul", L("n"), I(10)], I(i + 1)]])
+        body += [["If", ["Eq", L("n"), I(0)], ["Return", I(i + 1)]],
+                 ["Return", ["Add", ["Mul", call, I(3)], extra]]]
+        subs["s%d" % i] = {"params": params, "ret": "u", "body": body, "locals": ["v"] if keep == "local" else [],
+                           "init_locals": False}
+    main = ["Seq", ["GPut", ["Bytes", "72"], ["Call", "s0", N]], ["TickS", 1], ["Int", 1]]
+    return prog(main, subs)
+
+
 F5_SITES = ["stmt", "left", "right", "nested_arg", "arg_order", "arg_order3", "bytes_left", "bytes_right", "two_calls",
             "in_cond", "in_loop", "value_top"]
 F4_POS = ["first", "in_if", "in_ifelse", "in_loop", "in_for", "in_cond", "last"]
@@ -299,4 +324,8 @@ def programs(tier="quick"):
         for nl in range(0, max_loc + 1):
             for retw in ("u", "b"):
                 out.append((3 + nl, f7(order, nl, retw), _inputs((0, 1, 2, 3))))
+    for k in range(1, 7 if tier == "quick" else 9):
+        for keep in ("param", "local"):
+            for mixed in (False, True):
+                out.append((k, f8(k, keep, mixed), [{"args": [bytes([n]), b"\x00"]} for n in (0, 1, k, k + 1, 2 * k + 1)]))
     return out
